@@ -71,7 +71,8 @@ Step ==
                 h2 == IF cfgd2 /\ rxa.until # -1 /\ r.now >= rxa.until THEN << <<l, "H2", r.now, rxa.until>> >> ELSE <<>>
                 h3 == IF cfgd2 /\ rxa.until # -1 /\ (r.pa = -1 \/ r.pa > rxa.until) THEN << <<l, "H3", r.pa, rxa.until, IF r.pa # -1 /\ r.pa - rxa.until <= 1000 THEN "discovery-silence" ELSE "other">> >> ELSE <<>>
                 h4 == IF txa.badorder THEN << <<l, "H4", "renew-after-rebind", r.now>> >>
-                      ELSE IF cfgd /\ leaseEnd # -1 /\ (txa.renew \/ (txa.rebind /\ ~rebound)) /\ r.now >= leaseEnd THEN << <<l, "H4", "after-expiry", r.now>> >> ELSE <<>>
+                      \* (frames are emitted after the poll's ingress: an ACK that arrives in this very poll has already extended the lease)
+                      ELSE IF cfgd /\ rxa.until # -1 /\ (txa.renew \/ (txa.rebind /\ ~rebound)) /\ r.now >= rxa.until THEN << <<l, "H4", "after-expiry", r.now>> >> ELSE <<>>
                 \* H4 (order): within one lease, rebinding is preceded by a renewal attempt (a unicast REQUEST, or the
                 \* neighbour discovery for the server that has to come first)
                 rebindNow == txa.rebind /\ ~(IF rxa.good THEN FALSE ELSE rebound)
